@@ -1,4 +1,28 @@
 import IslaVerif.Model.Bnf
+import IslaVerif.Proofs.C11
+/-
+C11 — BNF grammars survive printing and re-parsing: terminals keep their meaning.
+The three tables (escape table of `unparse_grammar`, the simple escapes and hex digits of
+`instantiate_escaped_symbols`) are REGENERATED from /repo's source on every run; the theorems are
+re-checked against them (an edit of a table that breaks the round trip breaks these proofs).
+-/
 namespace IslaVerif.C11
-theorem placeholder : True := trivial
+open IslaVerif.Bnf
+
+/-- un-escaping inverts escaping for EVERY string of code points (printable, control characters,
+quotes, backslashes, non-ASCII, placeholder look-alikes, …) -/
+theorem unescape_escape (s : List Nat) : unescape (escapeStr s) = s := unescape_escape' s
+
+/-- the printed form of a terminal is exactly one STRING token of bnf.g4, whatever follows -/
+theorem lex_printed (s rest : List Nat) : lexString (printTerminal s ++ rest) = some (escapeStr s, rest) :=
+  lex_printed' s rest
+
+/-- printing a terminal and reading it back yields the same terminal -/
+theorem read_print (s rest : List Nat) : readTerminal (printTerminal s ++ rest) = some (s, rest) :=
+  read_print' s rest
+
+/-! non-vacuity: quote, backslash, newline, NUL, a placeholder look-alike -/
+example : unescape (escapeStr [34, 92, 10, 0, 36, 36, 66, 92, 110]) = [34, 92, 10, 0, 36, 36, 66, 92, 110] := by decide
+example : escapeStr [34, 92, 10, 0] = [92, 34, 92, 92, 92, 110, 92, 120, 48, 48] := by decide
+
 end IslaVerif.C11
